@@ -681,7 +681,8 @@ class Sim(object):
         self.counters = counters
         a = self.sc.get("arb", {})
         self.arb = A.Arbiter(ws, "ipc:///dev/shm/verif-none-ctl", "ipc:///dev/shm/verif-none-pub",
-                             check_delay=-1, loop=self.loop, warmup_delay=a.get("warmup_ms", 0) / 1000.0)
+                             check_delay=-1, loop=self.loop, warmup_delay=a.get("warmup_ms", 0) / 1000.0,
+                             endpoint_owner=a.get("owner"))
         simify_arbiter(self.arb)
         self.stop_requested = False
         self.loop.call_later = self._call_later
